@@ -239,3 +239,9 @@ package host
 //@   prop C15 C08
 //@   modifies atombool
 //@   ensures @a-main-host-at-the-address result != nil && fresh(result) && result.Addr == addr && result.Type == 0
+
+//@ func (*Host).WaitRemoved
+//@   prop C06 C15
+//@   requires h != nil
+//@   modifies nothing
+//@   ensures @the-removal-latch result == h.removeCh
